@@ -78,6 +78,10 @@ def run_check(prop, tier, seed, workers=None, only_shard=None):
             f"{len(agg['harness_errors'])} harness error(s), first: "
             + json.dumps(agg["harness_errors"][0])[:1500]
         )
+    agg["anchors"] = check_anchors(mod, agg)
+    for desc, hit in agg["anchors"].items():
+        if hit is False:
+            agg["inconclusive"].append(f"anchored code was never executed: {desc}")
     if hasattr(mod, "finalize") and good:
         for reason in mod.finalize(agg, tier) or []:
             agg["inconclusive"].append(reason)
@@ -130,6 +134,27 @@ def run_check(prop, tier, seed, workers=None, only_shard=None):
     return exit_code
 
 
+def check_anchors(mod, agg):
+    """ANCHORS = [(repo-relative file under pyvaporation/, source snippet, description)]: the line holding the snippet must
+    have been executed by the workload (line coverage from sys.monitoring).  A snippet that no longer exists in the
+    sources (refactored away) is reported as None and not required."""
+    out = {}
+    root = bootstrap.repo_root() / "pyvaporation"
+    for rel, snippet, desc in getattr(mod, "ANCHORS", []):
+        try:
+            text = (root / rel).read_text().splitlines()
+        except OSError:
+            out[desc] = None
+            continue
+        nums = [i + 1 for i, line in enumerate(text) if snippet in line]
+        if not nums:
+            out[desc] = None
+            continue
+        hit = agg["lines"].get(rel, set())
+        out[desc] = any(n in hit for n in nums)
+    return out
+
+
 def write_evidence(mod, prop, tier, seed, agg, wall, exit_code):
     EVIDENCE.mkdir(parents=True, exist_ok=True)
     cov = {
@@ -143,6 +168,8 @@ def write_evidence(mod, prop, tier, seed, agg, wall, exit_code):
         "known_findings_attributed": {k: v["count"] for k, v in agg["known"].items()},
         "inconclusive_reasons": agg["inconclusive"],
         "shards": agg["shards"],
+        "library_lines_executed": {f: len(v) for f, v in sorted(agg.get("lines", {}).items())},
+        "anchored_code_executed": agg.get("anchors", {}),
         "verdict": {0: "held", 1: "violated", 2: "inconclusive"}[exit_code],
         "repo": str(bootstrap.repo_root()),
     }
